@@ -14,9 +14,11 @@ import (
 	"fmt"
 	"os"
 	"path/filepath"
+	"reflect"
 	"strings"
 	"time"
 
+	"github.com/codenotary/immudb/embedded/ahtree"
 	"github.com/codenotary/immudb/embedded/htree"
 	"github.com/codenotary/immudb/embedded/logger"
 	"github.com/codenotary/immudb/embedded/store"
@@ -111,6 +113,133 @@ func build(dir string, shape []int, f int, res *vh.Result) *hist {
 		prev = got.Alh()
 	}
 	return h
+}
+
+// ---- split-view histories (spec/Proofs.tla HistPoison) -------------------------------------------------------
+// A real store cannot hold them (it appends its own Alh to its own tree), so the headers are built by hand over a
+// real ahtree whose leaf p is foreign, and the dual proof is assembled the way ImmuStore.DualProof assembles it
+// (mirror below; checked against the real ImmuStore.DualProof on every unpoisoned history it is used with).
+
+func innerHash(h *store.TxHeader) [sha256.Size]byte {
+	var b []byte
+	var u8 [8]byte
+	var u4 [4]byte
+	var u2 [2]byte
+	binary.BigEndian.PutUint64(u8[:], uint64(h.Ts))
+	b = append(b, u8[:]...)
+	binary.BigEndian.PutUint16(u2[:], uint16(h.Version))
+	b = append(b, u2[:]...)
+	switch h.Version {
+	case 0:
+		binary.BigEndian.PutUint16(u2[:], uint16(h.NEntries))
+		b = append(b, u2[:]...)
+	case 1:
+		var md []byte
+		if h.Metadata != nil {
+			md = h.Metadata.Bytes()
+		}
+		binary.BigEndian.PutUint16(u2[:], uint16(len(md)))
+		b = append(b, u2[:]...)
+		b = append(b, md...)
+		binary.BigEndian.PutUint32(u4[:], uint32(h.NEntries))
+		b = append(b, u4[:]...)
+	}
+	b = append(b, h.Eh[:]...)
+	binary.BigEndian.PutUint64(u8[:], h.BlTxID)
+	b = append(b, u8[:]...)
+	b = append(b, h.BlRoot[:]...)
+	return sha256.Sum256(b)
+}
+
+type phist struct {
+	hdrs []*store.TxHeader
+	alhs [][sha256.Size]byte
+	aht  *ahtree.AHtree
+}
+
+func foreignLeaf(seed int64) [sha256.Size]byte { return junk(seed, 99) }
+
+// buildPoison: chain of the same transactions build() commits; tree leaf p (0: none) is foreign.
+func buildPoison(dir string, shape []int, p int, seed int64) *phist {
+	aht, err := ahtree.Open(dir, ahtree.DefaultOptions())
+	vh.Must(err, "ahtree.Open")
+	h := &phist{aht: aht}
+	prev := storetrace.Genesis
+	for k := 1; k <= len(shape); k++ {
+		key := []byte(fmt.Sprintf("k%d", k))
+		val := []byte(fmt.Sprintf("v%d-%d", k, 1))
+		ver := k % 2
+		dg, err := store.EntrySpecDigestFor(ver)
+		vh.Must(err, "EntrySpecDigestFor")
+		ed := dg(&store.EntrySpec{Key: key, Value: val})
+		ht, _ := htree.New(1)
+		vh.Must(ht.BuildWith([][sha256.Size]byte{ed}), "BuildWith")
+		hdr := &store.TxHeader{ID: uint64(k), Ts: int64(100 + k), Version: ver, NEntries: 1, Eh: ht.Root(), PrevAlh: prev, BlTxID: uint64(shape[k-1])}
+		if ver == 1 {
+			hdr.Metadata = store.NewTxMetadata()
+		}
+		if hdr.BlTxID > 0 {
+			hdr.BlRoot, err = aht.RootAt(hdr.BlTxID)
+			vh.Must(err, "RootAt")
+		}
+		alh := hdr.Alh()
+		leaf := alh
+		if k == p {
+			leaf = foreignLeaf(seed)
+		}
+		_, _, err = aht.Append(leaf[:])
+		vh.Must(err, "aht.Append")
+		h.hdrs = append(h.hdrs, hdr)
+		h.alhs = append(h.alhs, alh)
+		prev = alh
+	}
+	return h
+}
+
+// mirrorDual assembles a dual proof over (chain headers, tree) like ImmuStore.DualProof / LinearProof / LinearAdvanceProof.
+func (h *phist) mirrorDual(src, tgt int, tblFromTree bool, p int, seed int64) *store.DualProof {
+	S, T := h.hdrs[src-1], h.hdrs[tgt-1]
+	pr := &store.DualProof{SourceTxHeader: cloneHdr(S), TargetTxHeader: cloneHdr(T)}
+	var err error
+	if S.ID < T.BlTxID {
+		pr.InclusionProof, err = h.aht.InclusionProof(S.ID, T.BlTxID)
+		vh.Must(err, "InclusionProof")
+	}
+	if S.BlTxID > 0 {
+		pr.ConsistencyProof, err = h.aht.ConsistencyProof(S.BlTxID, T.BlTxID)
+		vh.Must(err, "ConsistencyProof")
+	}
+	if T.BlTxID > 0 {
+		pr.TargetBlTxAlh = h.alhs[T.BlTxID-1]
+		if tblFromTree && int(T.BlTxID) == p {
+			pr.TargetBlTxAlh = foreignLeaf(seed)
+		}
+		pr.LastInclusionProof, err = h.aht.InclusionProof(T.BlTxID, T.BlTxID)
+		vh.Must(err, "LastInclusionProof")
+	}
+	ls := S.ID
+	if T.BlTxID > ls {
+		ls = T.BlTxID
+	}
+	lp := &store.LinearProof{SourceTxID: ls, TargetTxID: T.ID, Terms: [][sha256.Size]byte{h.alhs[ls-1]}}
+	for id := ls + 1; id <= T.ID; id++ {
+		lp.Terms = append(lp.Terms, innerHash(h.hdrs[id-1]))
+	}
+	pr.LinearProof = lp
+	as, at := S.BlTxID, S.ID
+	if T.BlTxID < at {
+		at = T.BlTxID
+	}
+	if at > as+1 {
+		la := &store.LinearAdvanceProof{LinearProofTerms: [][sha256.Size]byte{h.alhs[as]}, InclusionProofs: make([][][sha256.Size]byte, at-as-1)}
+		for id := as + 1; id < at; id++ {
+			la.InclusionProofs[id-as-1], err = h.aht.InclusionProof(id, T.BlTxID)
+			vh.Must(err, "ladv InclusionProof")
+			la.LinearProofTerms = append(la.LinearProofTerms, innerHash(h.hdrs[id]))
+		}
+		pr.LinearAdvanceProof = la
+	}
+	return pr
 }
 
 func cloneHdr(h *store.TxHeader) *store.TxHeader { c := *h; return &c }
@@ -273,7 +402,82 @@ func main() {
 			hists[k] = h
 			return h
 		}
+		phists := map[[2]int]*phist{}
+		getP := func(si, p int) *phist {
+			k := [2]int{si, p}
+			if h, ok := phists[k]; ok {
+				return h
+			}
+			h := buildPoison(filepath.Join(*dir, fmt.Sprintf("p%d_%d", si, p)), cf.Shapes[si-1], p, *seed)
+			phists[k] = h
+			return h
+		}
+		mirrorChecked := map[int]bool{}
 		for _, c := range cf.Cases {
+			if c.Kind == "poison" {
+				if !mirrorChecked[c.Shape] {
+					// the mirror must produce exactly what the real store produces on the unpoisoned history
+					mirrorChecked[c.Shape] = true
+					H, M := get(c.Shape, cf.N+1), getP(c.Shape, 0)
+					for a := 1; a <= cf.N; a++ {
+						for b := a; b <= cf.N; b++ {
+							rp, err := H.st.DualProof(H.hdrs[a-1], H.hdrs[b-1])
+							vh.Must(err, "DualProof")
+							mp := M.mirrorDual(a, b, false, 0, *seed)
+							if rp.SourceTxHeader.Alh() != mp.SourceTxHeader.Alh() || rp.TargetTxHeader.Alh() != mp.TargetTxHeader.Alh() ||
+								!reflect.DeepEqual(rp.InclusionProof, mp.InclusionProof) || !reflect.DeepEqual(rp.ConsistencyProof, mp.ConsistencyProof) ||
+								rp.TargetBlTxAlh != mp.TargetBlTxAlh || !reflect.DeepEqual(rp.LastInclusionProof, mp.LastInclusionProof) ||
+								!reflect.DeepEqual(rp.LinearProof, mp.LinearProof) || !reflect.DeepEqual(rp.LinearAdvanceProof, mp.LinearAdvanceProof) {
+								vh.Fatalf("harness mirror of ImmuStore.DualProof differs from the real one: shape %v %d->%d\nreal   %+v\nmirror %+v", cf.Shapes[c.Shape-1], a, b, rp, mp)
+							}
+							res.Count("mirror-equals-real-DualProof", 1)
+						}
+					}
+				}
+				P := getP(c.Shape, c.F)
+				p := P.mirrorDual(c.I, c.J, c.Comp == "tblFromTree", c.F, *seed)
+				trusted := P.alhs[c.I-1]
+				var real bool
+				pn, hung, msg := vh.Guard(10*time.Second, func() {
+					real = store.VerifyDualProof(p, uint64(c.I), uint64(c.J), trusted, p.TargetTxHeader.Alh())
+				})
+				res.Evaluations++
+				res.Count("kind:poison", 1)
+				if pn || hung {
+					res.Violate("store.VerifyDualProof:panic-or-hang:poison", msg, c)
+					continue
+				}
+				if real != c.Go {
+					res.DriftNote(fmt.Sprintf("VerifyDualProof real=%v transcription=%v case=%+v", real, c.Go, c))
+				}
+				if real && !c.Truth {
+					S, T := P.hdrs[c.I-1], P.hdrs[c.J-1]
+					cls := "foreign-leaf-between-source-tree-and-source"
+					if c.F == c.I {
+						cls = "foreign-leaf-at-source"
+					}
+					switch {
+					case uint64(c.I) < T.BlTxID:
+						cls += ":source-below-target-tree"
+					case uint64(c.I) == T.BlTxID:
+						cls += ":source-is-last-of-target-tree"
+					default:
+						cls += ":source-beyond-target-tree"
+					}
+					if uint64(c.F) == T.BlTxID {
+						cls += ":foreign-leaf-is-last-of-target-tree"
+					} else {
+						cls += ":foreign-leaf-inside-target-tree"
+					}
+					res.Violate("store.VerifyDualProof:accepts-split-view:"+cls,
+						fmt.Sprintf("client trusting tx %d (BlTxID %d) accepted tx %d (BlTxID %d) whose binary-linking tree holds a foreign leaf at position %d, a transaction the client already holds in its chain (shape %v, %s)",
+							c.I, S.BlTxID, c.J, T.BlTxID, c.F, cf.Shapes[c.Shape-1], c.Comp), c)
+				}
+				if !real && !c.Truth {
+					res.Count("split-view-refused", 1)
+				}
+				continue
+			}
 			H := get(c.Shape, cf.N+1)
 			lo, hi := c.I, c.J
 			if lo > hi {
@@ -349,6 +553,9 @@ func main() {
 		}
 		for _, h := range hists {
 			h.st.Close()
+		}
+		for _, h := range phists {
+			h.aht.Close()
 		}
 		res.Distinct += len(cf.Cases)
 		res.Traces += len(cf.Cases)
